@@ -68,6 +68,7 @@ package car
 //@   call[Pool.Get#0] assume pool_holds_only_bufio_readers: typeis(result, "*bufio.Reader")
 
 //@ func (*selectiveCarTraverser).loader
+//@   modifies sct.offset
 //@   ghost at entry: mark(sct) := 0
 //@   ghost after call[Set.Add#0]: mark(sct) := 1
 //@   call[Set.Add#0] assert remembers_the_block_it_is_about_to_emit [C15]: arg1 == c && !hasres
@@ -81,6 +82,7 @@ package car
 //@   check offset_advances_once [C15]: err == nil ==> sct.offset == ite(hasres, old(sct.offset), wrap_u64(old(sct.offset) + size))
 
 //@ func (*selectiveCarTraverser).traverseHeader
+//@   modifies sct.offset
 //@   call[dynamic#0] assert one_root_per_dag [C15]: len(arg0.Roots) == len(sct.sc.dags)
 //@   loop[0] invariant copied [C15]: len(roots) == rangeindex + 1
 //@   let hsize, herr := call[HeaderSize#0]
